@@ -1,6 +1,7 @@
 import Pyunicorn.Lemmas.Memo
 import Pyunicorn.Lemmas.MemoNested
 import Pyunicorn.Lemmas.MemoMode
+import Pyunicorn.Lemmas.MemoOwned
 import Pyunicorn.Generated.StructC01
 /-!
 # C01 — Results always reflect the object's current state (cache coherence)
@@ -276,6 +277,121 @@ example : taintOf (modeFields toyMode) [⟨1, .expr 2 []⟩, ⟨0, .const 0⟩, 
 
 end Pyunicorn.Mode
 
+/-! ### Round 5: owned objects — the table of the pair (owner, owned `Cached` object)
+
+`Model/MemoOwned.lean`: `compose t u l` puts the owner's table `t` and the owned class's *own*
+table `u` (both regenerated from the source) together: the owned object's cached methods with
+their own keys, the owner's methods calling them through the owned object's caches, the owner's
+mutators and **every** mutator of the owned class.  The counters of the owned object's
+`__cache_state__` are the owner's key components `comp.c` (that is what `Cached.__hash__` of the
+owner hashes when `self.comp` is listed in its `__cache_state__`). -/
+namespace Pyunicorn.Memo
+
+/-- **Coherence of the pair.**  If the composed table is well-formed, every history of owner
+mutators, mutators called on the owned object (`o.data.set_window(…)`), queries of either object
+(owner queries computing through whatever the owned object's caches hold), evictions and raising
+calls returns at every query what newly constructed objects compute from the current fields. -/
+theorem ocoherent_of_wf (t u : NTable) (l : OLink) (hwf : nwf (compose t u l) = true)
+    (ops : List XOp) : AllCoherent (xrun (compose t u l) State.init ops) :=
+  ncoherent_with_exceptions _ hwf ops
+
+/-- the owned object's methods sit, renamed, at their own indices in the table of the pair … -/
+theorem compose_owned_method (t u : NTable) (l : OLink) (i : Nat) (m : NMethod)
+    (h : u.methods[i]? = some m) : (compose t u l).methods[i]? = some (liftMethod l m) := by
+  obtain ⟨hi, hm⟩ := List.getElem?_eq_some_iff.mp h
+  simp [compose, List.getElem?_append_left, hi, hm]
+
+/-- … and **every** mutator of the owned class's own table is a mutator of the pair -/
+theorem compose_owned_mutator (t u : NTable) (l : OLink) (o : Mutator) (h : o ∈ u.mutators) :
+    liftMut l o ∈ (compose t u l).mutators := by
+  simp only [compose, List.mem_append, List.mem_map]
+  exact Or.inr ⟨o, h, rfl⟩
+
+/-- **What well-formedness of the pair says in terms of the source.**  If the table of the pair is
+well-formed and names are kept apart, then for every cached method `m` of the owner, every argument
+pattern `k` whose body reads the owned object, and every mutator `o` of the owned class's own table
+that writes anything: `o` bumps (after renaming) a counter that is part of `m`'s key — i.e. a
+counter of the owned object's `__cache_state__` (those are the only owned counters an owner key
+can contain).  A state-changing public method of the owned class that bumps only method-level
+counters of the owned class (`attrs=`) leaves the owner's entries reachable. -/
+theorem owner_key_sees_owned_mutator (t u : NTable) (l : OLink)
+    (hwf : nwf (compose t u l) = true) (hap : l.apart t = true)
+    (mi : Nat) (m : NMethod) (hm : t.methods[mi]? = some m) (k : Nat)
+    (hread : l.content ∈ (m.bodyOf k).direct)
+    (o : Mutator) (ho : o ∈ u.mutators) (f : Nat) (hf : f ∈ o.writes) :
+    ∃ c ∈ m.keyCtrs, c ∈ o.bumps.map l.renCtr := by
+  have hwf' : wf (compose t u l).flatten = true := by
+    simp only [nwf, Bool.and_eq_true] at hwf; exact hwf.2
+  simp only [wf, Bool.and_eq_true, List.all_eq_true] at hwf'
+  have hcm := compose_owner_method t u l mi m hm
+  have hmem := flatMethod_mem (compose t u l) (u.methods.length + mi) k _ hcm
+  have hmut : liftMut l o ∈ (compose t u l).flatten.mutators := by
+    simp only [NTable.flatten, compose, List.mem_append, List.mem_map]; exact Or.inr ⟨o, ho, rfl⟩
+  have hcov := hwf'.1 _ hmem _ hmut
+  simp only [covered, Bool.or_eq_true, List.any_eq_true, List.all_eq_true] at hcov
+  rcases hcov with ⟨c, hc, hb⟩ | hall
+  · refine ⟨c, ?_, ?_⟩
+    · simpa [flatMethod, hcm, ownerMethod] using hc
+    · simpa [liftMut] using hb
+  · exfalso
+    have hw : l.renFld f ∈ (liftMut l o).writes := by
+      simp only [liftMut, List.mem_map]; exact ⟨f, hf, rfl⟩
+    have h1 := hall _ hw
+    have hr : l.renFld f ∈ (flatMethod (compose t u l) (u.methods.length + mi) k).reads := by
+      simp only [flatMethod, hcm]
+      apply mem_closure_direct _ _ _ _ _ hcm
+      rw [ownerMethod_bodyOf_direct]
+      have hc : (m.bodyOf k).direct.contains l.content = true := by simpa using hread
+      rw [if_pos hc]
+      exact List.mem_append_right _
+        (List.mem_map.mpr ⟨f, mem_ownedFields_of_write u o ho f hf, rfl⟩)
+    have hk : l.renFld f ∉ (flatMethod (compose t u l) (u.methods.length + mi) k).keyFlds := by
+      simp only [flatMethod, hcm, ownerMethod]
+      intro hin
+      have hmm : m ∈ t.methods := List.mem_of_getElem? hm
+      simp only [OLink.apart, Bool.and_eq_true, List.all_eq_true] at hap
+      have := (hap.1.1 m hmm).1.2 _ hin
+      have h2 := of_decide_eq_true this
+      simp only [OLink.renFld] at h2
+      omega
+    simp [hr, hk] at h1
+
+/-! non-vacuity.  Owned class: method 0 reads its field 0, keyed on its counter 0; mutator 0 writes
+field 0 and bumps counter 0 (`ClimateData.set_window`), mutator 1 (`oBad` only) writes field 0 and
+bumps counter 1, which is *not* part of the owned object's `__cache_state__`.  Owner: method 0
+reads the owned object (field 5 = `data.content`) and calls its method 0; its key is the owner
+counter 7 = `data._mut_window` = the owned counter 0. -/
+def oOwner : NTable := ⟨[⟨[], ⟨[5], []⟩, [7], []⟩], [], some 4⟩
+def oOwned : NTable := ⟨[⟨[], ⟨[0], []⟩, [0], []⟩], [⟨[0], [0], []⟩], some 4⟩
+def oOwnedBad : NTable :=
+  ⟨[⟨[], ⟨[0], []⟩, [0, 1], []⟩], [⟨[0], [0], []⟩, ⟨[0], [1], []⟩], some 4⟩
+def oLink : OLink := ⟨5, [(0, 7)], [(0, 0, 0, 0), (0, 1, 0, 0)], [], 100⟩
+
+example : compose oOwner oOwned oLink =
+    ⟨[⟨[], ⟨[100], []⟩, [7], []⟩, ⟨[], ⟨[5, 100], [(0, 0)]⟩, [7], []⟩], [⟨[100], [7], []⟩], some 4⟩ := by
+  decide
+example : nwf (compose oOwner oOwned oLink) = true := by decide
+example : oLink.apart oOwner = true := by decide
+/-- the owned class is coherent on its own (its second counter is a method-level key part), the pair
+is not: the owner's key sees only the owned object's `__cache_state__` -/
+example : nwf oOwnedBad = true ∧ nwf (compose oOwner oOwnedBad oLink) = false := by decide
+example : noffending (compose oOwner oOwnedBad oLink) = [(1, 0, 1)] := by decide
+/-- owner query; the unbumped mutator on the owned object; owner query: the old value comes back -/
+example : xrun (compose oOwner oOwnedBad oLink) State.init
+      [.op (.query 1 0), .op (.mutate 1), .op (.query 0 0), .op (.query 1 0)] =
+    [some ([0, 0, 0, 0, 0], [0, 0, 0, 0, 0]), none, some ([0, 1], [0, 1]),
+     some ([0, 0, 0, 0, 0], [0, 0, 1, 0, 1])] := by decide
+example : AllCoherent (xrun (compose oOwner oOwned oLink) State.init
+      [.op (.query 1 0), .op (.mutate 0), .raises 1 0 [1], .op (.query 0 0), .op (.query 1 0)]) :=
+  ocoherent_of_wf _ _ _ (by decide) _
+
+/-- `owner_key_sees_owned_mutator` on the toy pair: the owned mutator's counter 0 is the owner's key counter 7 -/
+example : ∃ c ∈ [7], c ∈ ([0].map oLink.renCtr) :=
+  owner_key_sees_owned_mutator oOwner oOwned oLink (by decide) (by decide) 0 _ rfl 0 (by decide)
+    ⟨[0], [0], []⟩ (by decide) 0 (by decide)
+
+end Pyunicorn.Memo
+
 /-! ### the tables of the current source -/
 namespace Pyunicorn.Generated.StructC01
 open Pyunicorn.Memo
@@ -341,5 +457,64 @@ theorem mode_no_leak_all (name : String) (t : MTable) (h : (name, t) ∈ allMTab
   have := mode_wf_all
   rw [List.all_eq_true] at this
   exact (mode_no_leak t (this (name, t) h) o ho s1 s2 hagree arg mask).2 f hf ha
+
+/-! #### round 5: the pairs (owner, owned `Cached` object) of the current source -/
+
+/-- one kernel evaluation for the three decidable facts about every pair (owner class, owned
+component): names kept apart, hand-written description sound, composed table well-formed -/
+theorem owned_pairs_ok :
+    allOLinks.all (fun p => p.2.2.2.2.apart p.2.2.1 && abstractionSound p.2.2.1 p.2.2.2.1 p.2.2.2.2 &&
+      nwf (compose p.2.2.1 p.2.2.2.1 p.2.2.2.2)) = true := by decide +kernel
+
+/-- for every owner class and every owned component (`data`, `grid`, `rp_x`, `rp_y`, `crp_xy`),
+the table composed of the owner's table and the owned class's own table is acyclic and covered:
+the key of every cached method of the owner covers what it reads of the owned object — directly
+or through the owned object's cached methods and caches — against **every public mutator of the
+owned class** as extracted from the owned class's source, and the owned methods are covered
+against the owner's mutators -/
+theorem owned_nwf_all :
+    allOLinks.all (fun p => nwf (compose p.2.2.1 p.2.2.2.1 p.2.2.2.2)) = true := by
+  have h := owned_pairs_ok
+  rw [List.all_eq_true] at h ⊢
+  intro p hp
+  have := h p hp
+  simp only [Bool.and_eq_true] at this
+  exact this.2
+
+/-- the renaming keeps the two objects' names apart, and the hand-written description of the owned
+objects' mutators that rounds 1–4 used (translate/fields_C01.json: `data.set_window` bumps
+`data._mut_window`) claims nothing the owned class's own table does not grant -/
+theorem owned_links_sound :
+    allOLinks.all (fun p => p.2.2.2.2.apart p.2.2.1 && abstractionSound p.2.2.1 p.2.2.2.1 p.2.2.2.2)
+      = true := by
+  have h := owned_pairs_ok
+  rw [List.all_eq_true] at h ⊢
+  intro p hp
+  have := h p hp
+  simp only [Bool.and_eq_true] at this ⊢
+  exact this.1
+
+/-- hence every history on a pair — owner mutators, mutators called on the owned object, queries of
+both, evictions, raising calls — is coherent -/
+theorem ocoherent_all (c comp : String) (t u : NTable) (l : OLink)
+    (h : (c, comp, t, u, l) ∈ allOLinks) (ops : List XOp) :
+    AllCoherent (xrun (compose t u l) State.init ops) := by
+  have := owned_nwf_all
+  rw [List.all_eq_true] at this
+  exact ocoherent_of_wf t u l (this (c, comp, t, u, l) h) ops
+
+/-- in source terms: in every pair, every mutator of the owned class that writes anything bumps a
+counter in the key of every owner method that reads the owned object.  (On the current source no
+cached method of an owner reads an owned object that has mutators — the statement is a guard; hand
+mutation M1 of design/C01.md, Round 5, makes it fire.) -/
+theorem owner_keys_see_owned_mutators_all (c comp : String) (t u : NTable) (l : OLink)
+    (h : (c, comp, t, u, l) ∈ allOLinks) (mi : Nat) (m : NMethod) (hm : t.methods[mi]? = some m)
+    (k : Nat) (hread : l.content ∈ (m.bodyOf k).direct) (o : Mutator) (ho : o ∈ u.mutators)
+    (f : Nat) (hf : f ∈ o.writes) : ∃ c' ∈ m.keyCtrs, c' ∈ o.bumps.map l.renCtr := by
+  have h1 := owned_pairs_ok
+  rw [List.all_eq_true] at h1
+  have := h1 (c, comp, t, u, l) h
+  simp only [Bool.and_eq_true] at this
+  exact owner_key_sees_owned_mutator t u l this.2 this.1.1 mi m hm k hread o ho f hf
 
 end Pyunicorn.Generated.StructC01
